@@ -216,6 +216,8 @@ class Result:
             cur = self.coverage.get(k)
             if isinstance(v, bool):
                 self.coverage[k] = v if cur is None else (cur and v)
+            elif k.startswith("max_") and isinstance(v, (int, float)):
+                self.coverage[k] = v if cur is None else max(cur, v)
             elif isinstance(v, int) and (cur is None or isinstance(cur, int)):
                 self.coverage[k] = (cur or 0) + v
             elif isinstance(v, dict) and (cur is None or isinstance(cur, dict)):
